@@ -288,7 +288,26 @@ def deep_super_case(rng, ordered=False, min_obj=5, max_obj=7, max_fam=5, max_sp=
             syn[g].append(rng.choice(fams))
         syn[g] = sorted(set(syn[g]), key=(hidden.index if ordered else fams.index))
     c = dict(DEFAULT) if rng.random() < 0.6 else tame(tie_cost(rng), no)
-    return {"kind": "super", "G": G, "S": S, "leafmap": lm, "syn": syn, "costs": c}
+    return hostile_family_names(rng, {"kind": "super", "G": G, "S": S, "leafmap": lm, "syn": syn, "costs": c})
+
+
+HOSTILE_FAMILIES = ["g1", "g01", "g001", "g10", "a", "b", "ab", "ba", "16S", "5", "05", "cas1", "Cas1", "x_y", "x", "_y"]
+
+
+def hostile_family_names(rng, case, p=0.15):
+    """With probability p rename the families of a labelled case through a random injection into names that collide
+    under careless keys (zero padding, case, concatenation, digit-leading).  The oracles never look at the names."""
+    if not case.get("syn") or rng.random() >= p:
+        return case
+    fams = sorted({f for s in case["syn"].values() for f in s} | set(case.get("root_order") or ()))
+    if len(fams) > len(HOSTILE_FAMILIES):
+        return case
+    ren = dict(zip(fams, rng.sample(HOSTILE_FAMILIES, len(fams))))
+    case["syn"] = {g: [ren[f] for f in fs] for g, fs in case["syn"].items()}
+    if case.get("root_order"):
+        case["root_order"] = [ren[f] for f in case["root_order"]]
+    case["family_names"] = "hostile"
+    return case
 
 
 def tame(c, nleaves, limit=5):
